@@ -29,7 +29,7 @@ def random_case(i, rnd):
     for k in range(n):
         kind = rnd.choice(["coupler", "dio", "dio", "coe"])
         devs.append(dict(kind=kind, in_bits=rnd.randint(0, 24), out_bits=rnd.randint(0, 24),
-                         dc=rnd.choice(["none", "dc32", "dc64"]), sii8=rnd.random() < 0.5, named=rnd.random() < 0.7,
+                         dc=rnd.choice(["none", "dc32", "dc64", "ref32", "ref64"]), sii8=rnd.random() < 0.5, named=rnd.random() < 0.7,
                          mailbox=(kind == "coe"),
                          prior_addr=rnd.choice([0, 0x1000, 0x1001, 0x1000 + rnd.randint(0, 17), rnd.randint(0, 0xFFFF), 7]),
                          alias=rnd.choice([0, 1, 0x00FF, 0x8000, 0xFFFF, rnd.randint(0, 0xFFFF)]), tag=k + 1))
